@@ -91,6 +91,83 @@ pub fn matches(e: &Value, g: &Value) -> bool {
     }
 }
 
+/// global-environment slot of each pool variable o1..oN
+fn pool_slots(vm: &marwood::vm::Vm, npool: usize) -> Vec<Option<usize>> {
+    let ge = vm.verif_globenv();
+    let st = vm.verif_heap().verif_symbol_table();
+    let nslots = ge.iter_slots().len();
+    (1..=npool)
+        .map(|k| {
+            let sym = *st.get(&format!("o{}", k))?;
+            (0..nslots).find(|sl| ge.get_symbol(*sl) == Some(sym))
+        })
+        .collect()
+}
+
+#[derive(Clone)]
+enum Ident {
+    Pair(usize),
+    Payload(usize, bool), // address of the shared vector / string payload, non-empty
+    None,
+}
+
+fn ident_of(cells: &[marwood::vm::vcell::VCell], v: &marwood::vm::vcell::VCell) -> Ident {
+    use marwood::vm::vcell::VCell;
+    match v {
+        VCell::Ptr(p) => match cells.get(*p) {
+            Some(VCell::Pair(_, _)) => Ident::Pair(*p),
+            Some(VCell::Vector(rc)) => Ident::Payload(std::rc::Rc::as_ptr(rc) as *const u8 as usize, rc.len() > 0),
+            Some(VCell::String(rc)) => Ident::Payload(std::rc::Rc::as_ptr(rc) as *const u8 as usize, !rc.borrow().is_empty()),
+            _ => Ident::None,
+        },
+        VCell::Vector(rc) => Ident::Payload(std::rc::Rc::as_ptr(rc) as *const u8 as usize, rc.len() > 0),
+        VCell::String(rc) => Ident::Payload(std::rc::Rc::as_ptr(rc) as *const u8 as usize, !rc.borrow().is_empty()),
+        // a pair held by value is a copy: it is no object at all
+        _ => Ident::None,
+    }
+}
+
+fn same(a: &Ident, b: &Ident) -> bool {
+    match (a, b) {
+        (Ident::Pair(x), Ident::Pair(y)) => x == y,
+        (Ident::Payload(x, ne), Ident::Payload(y, _)) => x == y && *ne,
+        _ => false,
+    }
+}
+
+/// m[i][j]: pool object j is the very object i, or the object reached from the list i by following cdrs
+fn share_matrix(vm: &marwood::vm::Vm, slots: &[Option<usize>]) -> Vec<Vec<bool>> {
+    use marwood::vm::vcell::VCell;
+    let cells = vm.verif_heap().verif_cells();
+    let ge = vm.verif_globenv();
+    let vals: Vec<VCell> = slots.iter().map(|s| s.map(|sl| ge.get_slot(sl)).unwrap_or(VCell::Undefined)).collect();
+    let ids: Vec<Ident> = vals.iter().map(|v| ident_of(cells, v)).collect();
+    let n = vals.len();
+    let mut m = vec![vec![false; n]; n];
+    for i in 0..n {
+        // the chain of objects reached from i by cdr
+        let mut chain: Vec<Ident> = vec![];
+        let mut cur = vals[i].clone();
+        let mut fuel = 100_000;
+        loop {
+            let id = ident_of(cells, &cur);
+            chain.push(id.clone());
+            fuel -= 1;
+            match (&id, fuel > 0) {
+                (Ident::Pair(p), true) => match cells.get(*p) {
+                    Some(VCell::Pair(_, d)) => cur = VCell::Ptr(*d),
+                    _ => break,
+                },
+                _ => break,
+            }
+        }
+        for j in 0..n {
+            m[i][j] = chain.iter().any(|c| same(c, &ids[j]));
+        }
+    }
+    m
+}
+
 fn parse_line(line: &str) -> Option<Value> {
     let s = line.trim();
     if s.starts_with('{') {
@@ -127,14 +204,9 @@ fn replay_one(b: &Value, npool: usize, stats: &mut Stats) -> Vec<Value> {
     for k in 1..=npool {
         let _ = eval(&mut s, &format!("(define o{} '())", k));
     }
-    // object identity as the language shows it: y is the object x or a tail of the list x
-    let _ = eval(&mut s, "(define (zz-tail? x y) (if (eq? x y) (if (pair? y) #t (if (vector? y) (> (vector-length y) 0) (if (string? y) (> (string-length y) 0) #f))) (if (pair? x) (zz-tail? (cdr x) y) #f)))");
-    let share_text = {
-        let rows: Vec<String> = (1..=npool)
-            .map(|i| format!("(list {})", (1..=npool).map(|j| format!("(zz-tail? o{} o{})", i, j)).collect::<Vec<_>>().join(" ")))
-            .collect();
-        format!("(list {})", rows.join(" "))
-    };
+    // object identity is read from the VM itself (pool slot -> heap cell / shared payload): eq? cannot be used,
+    // the pinned suite fixes (eq? (cons a b) (cons a b)) => #t
+    let slots = pool_slots(&s.vm, npool);
     let ops = b["ops"].as_array().cloned().unwrap_or_default();
     let mut done_texts = vec![];
     for (i, o) in ops.iter().enumerate() {
@@ -216,14 +288,7 @@ fn replay_one(b: &Value, npool: usize, stats: &mut Stats) -> Vec<Value> {
         // which pool objects are the same object / share a tail
         if let Some(sh) = o["share"].as_array() {
             stats.state_checks += 1;
-            let got = match eval(&mut s, &share_text) {
-                Outcome::Ok(c) => obs_datum(&c),
-                _ => json!(null),
-            };
-            let got_m: Vec<Vec<bool>> = got["v"]
-                .as_array()
-                .map(|rows| rows.iter().map(|r| r["v"].as_array().map(|x| x.iter().map(|b| b["v"].as_bool().unwrap_or(false)).collect()).unwrap_or_default()).collect())
-                .unwrap_or_default();
+            let got_m: Vec<Vec<bool>> = share_matrix(&s.vm, &slots);
             let exp_m: Vec<Vec<bool>> = sh.iter().map(|r| r.as_array().map(|x| x.iter().map(|b| b.as_bool().unwrap_or(false)).collect()).unwrap_or_default()).collect();
             if got_m != exp_m {
                 out.push(json!({"step": i + 1, "op": op, "text": text,
